@@ -175,9 +175,10 @@ type evaluator struct {
 	stack    []*types.Func
 	steps    int
 	budget   int
-	notes    map[string]bool // constructs outside the subset that were met
-	watch    map[string]bool // callee names to record as events
-	watchLit string          // a string constant whose evaluation is recorded as an event
+	notes    map[string]bool                                     // constructs outside the subset that were met
+	watch    map[string]bool                                     // callee names to record as events
+	watchLit string                                              // a string constant whose evaluation is recorded as an event
+	stmtHook func(s ast.Stmt, st state, info *types.Info) *event // optional: record an event for a statement
 	readsIn  map[ast.Node]bool
 }
 
